@@ -286,6 +286,24 @@ def late_forked_constructed_actual(pm):
     return False
 
 
+def late_forked_nested(pm):
+    """AUTOMATIC TAGS and a NESTED instantiation Q {...} whose template stands before the definition that uses it (whatever
+    the actual parameter is): the members of Q's late specialization keep their universal tags, so a clash that exists only
+    between the AUTOMATIC tags of Q's members and a tag written by hand around the use goes unseen - the ACCEPTING face of
+    finding C11-param-late-spec-untagged"""
+    if pm["tagging"] != 'A':
+        return False
+    pos = {it[1]: i for i, it in enumerate(pm["items"]) if it[0] == 'tmpl'}
+    for i, it in enumerate(pm["items"]):
+        if it[0] != 'def':
+            continue
+        for rf in references({"tagging": pm["tagging"], "items": [it]}):
+            for a in rf[3]:
+                if a[0] == 'P' and pos.get(a[1], len(pm["items"])) < i:
+                    return True
+    return False
+
+
 NAMED = [(801, None, K('C', comp(1, I))), (802, None, K('C', comp(1, I), comp(2, B))), (803, None, K('C', comp(1, I), comp(2, N)))]
 
 
@@ -462,6 +480,16 @@ def run_layer(run, rng, tier, model, asn1c, skel, scratch_dir, ncpu, run_lines, 
             if any(fd["id"] == fid for fd in run.findings):
                 run.case(ln)
                 run.count("asn1c:REJECT")
+                run.known_finding(fid, lab)
+                run.count("known:" + fid)
+                continue
+        if r["verdict"] == "ACCEPT" and not r["classes"] and f0["spec"] == "tags" and f0["wf"] == "1" and late_forked_nested(pm):
+            # the accepting face of the same defect: the inner specialization's members are not automatically tagged, so the
+            # clash between their automatic tags and a hand-written tag next to the use is not seen (first drawn at VERIF_SEED=3)
+            fid = "C11-param-late-spec-untagged"
+            if any(fd["id"] == fid for fd in run.findings):
+                run.case(ln)
+                run.count("asn1c:ACCEPT")
                 run.known_finding(fid, lab)
                 run.count("known:" + fid)
                 continue
